@@ -13,6 +13,7 @@ from .symexec import Executor, SV, Exc, State, Unsupported, fresh, cls_of, I, B,
 
 Z3_TIMEOUT_MS = int(os.environ.get("PYVC_Z3_TIMEOUT_MS", "10000"))
 CVC5_TIMEOUT_S = int(os.environ.get("PYVC_CVC5_TIMEOUT_S", "30"))
+RETRY = os.environ.get("PYVC_RETRY", "1") == "1"
 
 
 class UnitResult:
@@ -97,6 +98,7 @@ def generate(program, spec, qualname, recv_cls=None, case=None):
     ex.entry_old = (entry_heap, dict(env), 0)
     ex.entry_env = dict(env)
     ex.call_stack = []
+    ex.normal_exits = []
     ex.contract_stack = [c]
     # vacuity probe: the preconditions must be satisfiable (checked by the solver stage)
     ex.obligations_pre = list(st.pc)
@@ -105,7 +107,7 @@ def generate(program, spec, qualname, recv_cls=None, case=None):
     for s, oc in results:
         if oc is not None and oc[0] == "raise":
             exc = oc[1]
-            allowed = [cond for (name, cond) in c.raises if name == exc.name or name == "*"]
+            allowed = [cond for (name, cond) in c.raises if name.rstrip("!") == exc.name or name == "*"]
             if allowed:
                 s0 = _mk_state(entry_heap, s)
                 g = z3.Or([calls.spec_eval(ex, s0, env, cond) for cond in allowed])
@@ -115,6 +117,7 @@ def generate(program, spec, qualname, recv_cls=None, case=None):
             continue
         if oc is not None and oc[0] not in ("return",):
             raise Unsupported("break/continue at function level")
+        ex.normal_exits.append(list(s.pc))
         res = oc[1] if (oc is not None and oc[1] is not None) else SV("val", Val.none, T("none"))
         if c.returns is not None:
             rty = T(c.returns)
@@ -164,6 +167,13 @@ def frame_obligations(ex, st, entry_heap, mods, ovar, c):
         if hn == "$alive":
             if not c.allocates:
                 ex.oblige(st, "frame", "no-allocation", None, final == init)
+            else:
+                allowed = calls.alloc_classes(c)
+                if allowed is not None:
+                    oa = z3.Int(f"fa!{next(_uid)}")
+                    okcls = z3.Or([cls_of(oa) == ex.cid(n) for n in allowed])
+                    ex.oblige(st, "frame", "only-declared-classes-allocated", None,
+                              smt.forall([oa], z3.Implies(z3.And(final[oa], z3.Not(init[oa])), okcls), patterns=[final[oa]]))
             continue
         if hn.startswith("has$"):
             base = hn[4:]
@@ -306,16 +316,21 @@ def discharge(ob, use_cvc5=True, timeout_ms=None, seed=0):
         s1.add(z3.Not(ob.goal))
         if s1.check() == z3.unsat:
             return dict(verdict="discharged", backend="z3", time=time.time() - t0, detail="ground facts sufficed")
-    s = smt.new_solver(timeout_ms or Z3_TIMEOUT_MS, seed)
-    for a in relevant_axioms(ob.assumptions, ob.goal):
-        s.add(a)
-    for a in ob.assumptions:
-        s.add(a)
-    s.add(z3.Not(ob.goal))
-    r = s.check()
+    axs = relevant_axioms(ob.assumptions, ob.goal)
+    attempts = [(timeout_ms or Z3_TIMEOUT_MS, seed)] + ([(3 * (timeout_ms or Z3_TIMEOUT_MS), seed + 7)] if RETRY else [])
+    for (tmo, sd) in attempts:
+        s = smt.new_solver(tmo, sd)
+        for a in axs:
+            s.add(a)
+        for a in ob.assumptions:
+            s.add(a)
+        s.add(z3.Not(ob.goal))
+        r = s.check()
+        if r == z3.unsat:
+            return dict(verdict="discharged", backend="z3", time=time.time() - t0, detail="" if sd == seed else "second attempt")
+        if not (r == z3.unknown and ("timeout" in s.reason_unknown() or "canceled" in s.reason_unknown())):
+            break       # saturated or sat: a longer run will not help
     dt = time.time() - t0
-    if r == z3.unsat:
-        return dict(verdict="discharged", backend="z3", time=dt, detail="")
     reason = s.reason_unknown() if r == z3.unknown else "sat"
     model_txt = ""
     try:
@@ -463,6 +478,19 @@ def verify_unit(program, spec, qualname, recv_cls=None, use_cvc5=True, keep=Fals
         probe.add(a)
     pr = probe.check()
     res.vacuous = (pr == z3.unsat)
+    # reachability: some normally returning path must be satisfiable (else every `ensures` was proved vacuously)
+    if not res.vacuous and not getattr(c, "never_returns", False):
+        reachable = False
+        for pc in ex.normal_exits:
+            pb = smt.new_solver(1500)
+            for a in pc:
+                if not _has_quantifier(a):
+                    pb.add(a)
+            if pb.check() != z3.unsat:
+                reachable = True
+                break
+        if not reachable:
+            res.vacuous = True
     verdicts = discharge_all(ex.obligations, use_cvc5)
     for ob, d in zip(ex.obligations, verdicts):
         rec = dict(id=ob.id, kind=ob.kind, label=ob.label, line=ob.line, stack=ob.meta.get("stack"))
